@@ -156,6 +156,14 @@ func (r *Report) Guard(rule, construct, desc string, f func()) {
 	r.Obligations = append(r.Obligations[:start], first...)
 }
 
+// GuardExact is Guard without anchor re-resolution, for rules that state an absence over the anchored function (a
+// helper, where the thing is trivially absent, must not discharge them) or that already look at the anchor's family.
+func (r *Report) GuardExact(rule, construct, desc string, f func()) {
+	guardDepth++
+	defer func() { guardDepth-- }()
+	r.Guard(rule, construct, desc, f)
+}
+
 var (
 	guardDepth  int
 	anchorLog   map[*ssa.Function]bool
